@@ -63,7 +63,8 @@ def jobs(tier, seed):
     reps = ["machine-dict", "machine-file", "string-dict", "string-file"]
     n = 80 if tier == "quick" else 1500
     for i in range(n):
-        ins, outs = rng.choice([(["x"], ["y"]), (["x", "u"], ["y"]), (["x"], ["y", "z"])])
+        # variable names include ones that look like exponents (e1, E2): a printed "3 e1" must not read back as 3e1
+        ins, outs = rng.choice([(["x"], ["y"]), (["x", "u"], ["y"]), (["x"], ["y", "z"]), (["e1"], ["y"]), (["x"], ["E2", "y"])])
         c = CS.rand_contract(rng, ins, outs, alphabet, na=(0, 1), ng=(1, 2))
         # opposite pair in a random position of the guarantees (and sometimes the assumptions)
         pair = rng.choice(["none", "g", "g", "a"])
@@ -89,7 +90,7 @@ def jobs(tier, seed):
     m = 40 if tier == "quick" else 500
     vals = [0, 1, -1, 0.5, 2.5, 1234, 12345, 123456, 999999, 0.0001234, 0.00012344, 1e-4, 3.14159, -2.71828, 1e5, 99995, 0.1, 0.7, 1 / 3]
     for i in range(m):
-        ins, outs = rng.choice([(["x"], ["y"]), (["x", "u"], ["y", "z"])])
+        ins, outs = rng.choice([(["x"], ["y"]), (["x", "u"], ["y", "z"]), (["e2"], ["y", "E1"])])
         c = CS.rand_contract(rng, ins, outs, [rng.choice(vals[3:]) * rng.choice([1, -1]) for _ in range(4)], na=(0, 1), ng=(1, 2, 3))
         if rng.random() < 0.5:
             t = rng.choice(c["g"])
